@@ -91,7 +91,7 @@ public:
   }
 
   const ValueT& at(const KeyT& k) const {
-    Item& item = this->items.at(k);
+    Item& item = const_cast<Item&>(this->items.at(k));
     this->touch_item(item);
     return item.value;
   }
